@@ -479,6 +479,9 @@ class HostConnection(object):
 
             if is_down:
                 self.shutdown()
+                # the cluster may decide that the host stays up (another session is still
+                # connected to it): then this pool has to be replaced
+                self._session.submit(self._session.update_created_pools)
             elif connection is not self._connection:
                 # a replaced connection that was still serving requests failed: the pool's
                 # current connection is unaffected, just forget the old one
@@ -810,6 +813,9 @@ class HostConnectionPool(object):
                 connection.signaled_error = True
                 if is_down:
                     self.shutdown()
+                    # the cluster may decide that the host stays up (another session is still
+                    # connected to it): then this pool has to be replaced
+                    self._session.submit(self._session.update_created_pools)
                 else:
                     self._replace(connection)
         else:
